@@ -1,7 +1,7 @@
 """C13 - decoders never write beyond the caller's output capacity (E-BOUNDS).  DESIGN 4/C13."""
 import os
 from ..report import Run, Finding, rel
-from ..common import lib_module, configs_for, need_fn
+from ..common import lib_module, configs_for, need_fn, with_helpers_inlined, local_helpers_of
 from ..build import AnalysisBroken, build_module, VERIF
 from ..ir import Module
 from ..core import World
@@ -43,6 +43,18 @@ def analyse(mod, run, label, table=TABLE):
         cap = Lin.atom(("arg", capp)).scale(esz)
         n, bad, okl = B.check(fn, ("arg", outp), cap, "w")
         if n == 0: raise AnalysisBroken("%s: no write through the output parameter was found" % name)
+        if bad and label in ("ndebug", "asserts", "native"):
+            # the capacity tests may have been given names (file-local predicates such as `roomLeft(decoded, maxCount)`): the same obligations
+            # are tried on the function with its file-local helpers inlined.  That reading is only ever used to discharge - what gets reported
+            # is always the plain reading.
+            m2, f2 = with_helpers_inlined(mod, fn, label)
+            if m2 is not None:
+                w2 = World(m2); B2 = Bounds(w2); B2.contracts = {k_: v_ for k_, v_ in B.contracts.items() if k_[0] != name}
+                B2.contracts[(name, outp)] = ("arg", capp, esz)
+                n2, bad2, okl2 = B2.check(f2, ("arg", outp), cap, "w")
+                if n2 and not bad2:
+                    bad, okl = [], okl2
+                    run.observe("W1 %s: proved with its file-local helpers %s inlined" % (name, ", ".join(local_helpers_of(mod, fn))))
         for (i, kind, off, sz) in okl:
             run.ok("W1-output-within-capacity", {"fn": name, "at": loc(i), "access": kind, "offset": repr(off), "size": repr(sz), "bound": "%d*%s" % (esz, capn)})
         for (i, kind, why) in bad:
